@@ -342,10 +342,16 @@ def run(F, rep, tier):
     writer_headers_rule(F, rep, M)
     raw_blocks_rule(F, rep)
     emission.rule_emission(F, rep, M)
-    C04.bracketing_rule(F, G, rep, M)
+    C04.structure_rules(F, G, rep, M)
     gecko_rule(F, rep)
     # the trailing metadata element is part of the bytes: reader and writer grammars agree and the writer accepts what the reader produces
     from props import C16
+    # byte-exactness is a function of the game alone: the .slp writer keeps no state across calls
+    from props import C18
+    import reach as _reach
+    _G = _reach.Graph(F)
+    amb = C18.ambient_state(F, _G, _G.reachable(["io::slippi::ser::write"]))
+    rep.ob("writer.stateless", not amb, "io::slippi::ser::write", "ambient-state", "the .slp writer's reachable set keeps state across calls (%s)" % "; ".join("%s in %s @ %s" % (c, _reach.short(o), sp) for o, c, sp in amb[:3]))
     C16.reader_grammar(F, rep)
     C16.writer_grammar(F, rep)
     C16.writer_domain_rule(F, rep)
